@@ -30,6 +30,7 @@ fn main() {
         "c13" => c13::run(&a),
         "c09" => c09::run(&a),
         "c10" => c09::run_c10(&a),
+        "c09live" => c09::run_live(&a),
         "c12" => c12::run(&a),
         "c20" => c20::run(&a),
         "c06" => c06::run(&a),
